@@ -30,7 +30,7 @@ rc, out = run('cargo test --workspace --offline 2>&1')
 passed = sum(int(l.split()[3]) for l in out.splitlines() if l.startswith('test result:'))
 failed = sum(int(l.split()[5]) for l in out.splitlines() if l.startswith('test result:'))
 res['baseline_with_change'] = {'passed': passed, 'failed': failed}
-uses_hooks = 'astrolabe::verif' in open(demo).read()
+uses_hooks = 'astrolabe_verif' in open(demo).read() or 'verif::' in open(demo).read()
 denv = dict(env)
 if uses_hooks:
     denv['RUSTFLAGS'] = '--cfg astrolabe_verif'
